@@ -1354,11 +1354,12 @@ func nullSpellComparison(c *Ctx, b *Body) {
 // without an error and leaves the target nil, so a container probe that only looks at the
 // decoder's error takes null for an empty object or array: a copied null then tests equal
 // to {} and unequal to null. For every probe the comparison applies to an operand, one of
-//   (a) the probe refuses the text: after decoding it tests the decoded field for nil and
-//       answers false;
-//   (b) the call is reached only on the non-null edge of a test of the operand's text
-//       against the literal null (bytes.Equal(compact, "null"), directly or in a bool method);
-//   (c) the comparison itself tests the decoded field of that operand for nil.
+//
+//	(a) the probe refuses the text: after decoding it tests the decoded field for nil and
+//	    answers false;
+//	(b) the call is reached only on the non-null edge of a test of the operand's text
+//	    against the literal null (bytes.Equal(compact, "null"), directly or in a bool method);
+//	(c) the comparison itself tests the decoded field of that operand for nil.
 func nullProbes(c *Ctx, b *Body) {
 	l := c.L
 	eq := b.equalRole()
